@@ -160,6 +160,7 @@ def run_shard(job):
     t0 = time.time()
     eng = engine.Engine(max_paths=opts['max_paths'], max_seconds=opts['max_seconds'])
     eng.second_every = opts.get('second_every', 0)
+    eng.nontrivial_keys = set(getattr(prop, 'NONTRIVIAL', {}).get('quick', []))
     state = {'trace': None, 'xre': 0, 'xre_bad': [], 'samples': []}
     every = opts.get('xreplay_every', 0)
     offset = opts.get('seed', 0)
@@ -237,7 +238,7 @@ def run_shard(job):
         'solver_s': eng.solver_s, 'obligations': eng.obligations, 'discharged': eng.discharged,
         'violations': viols, 'inconclusive': eng.inconclusive, 'error': eng.error, 'counters': eng.counters,
         'monitors': eng.monitor_stats, 'samples': state['samples'], 'xreplays': state['xre'], 'xreplay_bad': state['xre_bad'][:3],
-        'functions': sorted(_funcs), 'wall': time.time() - t0, 'nvars': eng.nvars, 'ties': state.get('ties', 0), 'second': eng.second,
+        'functions': sorted(_funcs), 'wall': time.time() - t0, 'nvars': eng.nvars, 'ties': state.get('ties', 0), 'second': eng.second, 'nontrivial_paths': eng.nontrivial_paths,
     }
 
 
@@ -406,7 +407,7 @@ def report(pid, tier, seed, prop, results, broken, wall, njobs, args):
         print('HARNESS-ERROR vacuous: counter %s never triggered' % c)
     for n, e in inconclusive:
         print('INCONCLUSIVE %s: %s' % (n, e))
-    nontriv = sum(v for k, v in counters.items() if k in set(getattr(prop, 'NONTRIVIAL', {}).get('quick', [])))
+    nontriv = sum(r.get('nontrivial_paths', 0) for r in results)
     meta = prop.META
     ev = {
         'property_id': pid, 'tier': tier, 'seed': seed, 'level': 'model_checking',
@@ -414,7 +415,7 @@ def report(pid, tier, seed, prop, results, broken, wall, njobs, args):
             'states': paths, 'transitions': decisions, 'traces_validated_against_impl': xre,
             'samples': samples or [{'note': 'no sample recorded'}],
             'evaluations': paths, 'distinct_nontrivial': nontriv,
-            'rule': meta.get('rule', ''),
+            'rule': meta.get('rule', '') + ' | distinct_nontrivial = number of explored paths (each a distinct branch class) on which at least one of the listed non-trivial situations occurred: ' + ', '.join(getattr(prop, 'NONTRIVIAL', {}).get('quick', [])),
             'exhaustive': bool(status == 0 and not inconclusive),
             'explanation': 'bounded symbolic execution of the real code: every feasible path of the harnesses within the stated bounds was explored and each obligation decided by z3 (unsat = holds for every value on the path)',
             'functions_executed': sorted(functions),
